@@ -251,9 +251,11 @@ def reindex_database(
     if cmd.paths:
         # Only the given pages were hashed, so keep every other page's entry.
         file_to_hash = old_file_to_hash | file_to_hash
+    # The hash map is what tells the next run that there is nothing left to
+    # do, so the index is committed before it is written.
+    session.commit()
     _write_file_hash_to_disk(file_hash_path, file_to_hash)
     error_file_whitelist.write_text("\n".join(sorted(error_files)))
-    session.commit()
 
 
 def reindex_database_after_edit(
